@@ -212,24 +212,36 @@ class Engine(ExprMixin, CallMixin):
             raise Refuse(f"attribute store on {o!r}")
         if isinstance(t, ast.Subscript):
             outs = self.ev_many([t.value] + ([t.slice] if not isinstance(t.slice, ast.Slice) else []), s)
-            (s1, vs), = [(a, b) for a, b in outs if not isinstance(b, Raised)][:1]
-            h = self.hooks.get('setitem')
-            if h:
-                r = h(self, vs[0], vs[1] if len(vs) > 1 else None, v, s, node)
-                if r is not None:
-                    return r if r is not True else None
-            if isinstance(vs[0], VOpaque):
-                h2 = self.hooks.get('store_opaque_item')
-                if h2:
-                    h2(self, vs[0], v, s, node)
+            res = []
+            for s1, vs in outs:
+                if isinstance(vs, Raised):
+                    res.append(('raise', s1, vs.exc))
+                    continue
+                r = self.store_item(vs[0], vs[1] if len(vs) > 1 else None, v, s1, node)
+                res.extend(r if r is not None else [('fall', s1, None)])
+            if len(res) == 1 and res[0][0] == 'fall' and res[0][1] is s:
                 return None
-            if isinstance(vs[0], VObj) and len(vs) > 1:
-                key, m = self.src.method(vs[0].cls, '__setitem__')
-                if m is not None and key in self.reg.fns:
-                    return [('raise', a, b.exc) if isinstance(b, Raised) else ('fall', a, None)
-                            for a, b in self.call_key(key, m, [vs[0], vs[1], v], {}, s, node)]
-            raise Refuse(f"subscript store on {vs[0]!r} at line {getattr(node, 'lineno', '?')}")
+            return res
         raise Refuse(f"assignment target {type(t).__name__}")
+
+    def store_item(self, obj, key, v, s, node):
+        """obj[key] = v on state s; returns None (done in place) or a list of statement outcomes"""
+        h = self.hooks.get('setitem')
+        if h:
+            r = h(self, obj, key, v, s, node)
+            if r is not None:
+                return r if r is not True else None
+        if isinstance(obj, VOpaque):
+            h2 = self.hooks.get('store_opaque_item')
+            if h2:
+                h2(self, obj, v, s, node)
+            return None
+        if isinstance(obj, VObj) and key is not None:
+            k, m = self.src.method(obj.cls, '__setitem__')
+            if m is not None and k in self.reg.fns:
+                return [('raise', a, b.exc) if isinstance(b, Raised) else ('fall', a, None)
+                        for a, b in self.call_key(k, m, [obj, key, v], {}, s, node)]
+        raise Refuse(f"subscript store on {obj!r} at line {getattr(node, 'lineno', '?')}")
 
     def st_AugAssign(self, n, st):
         load = ast.copy_location(ast.BinOp(left=self._as_load(n.target), op=n.op, right=n.value), n)
